@@ -1240,6 +1240,27 @@ def check_program_shape(ctx: Ctx, rule: str = "R-PROGRAM-SHAPE"):
             f0 = next(iter(c.methods.values()), None)
             ctx.undecided(rule, f0, None, f"class {cn} derives from {bases or ['object']}{' with ' + str(kw) if kw else ''}; on the pinned tree: {PINNED_BASES[cn] or ['object']}. "
                           f"Methods and special methods it inherits from elsewhere were not read by the rules (not a verdict)", construct=f"class {cn}", key=f"bases:{cn}")
+    # (d) a package class that derives from a container of the standard library / sortedcontainers: where it is instantiated, reads and writes
+    # of the container run its methods, not the library's (a `__missing__` that registers the key on a failed lookup, an `add` that filters ...)
+    containers = ("dict", "list", "set", "SortedDict", "SortedSet", "SortedList", "defaultdict", "OrderedDict", "Counter", "UserDict", "UserList", "deque", "frozenset")
+    for c in M.classes.values():
+        if not any(b.split(".")[-1] in containers for b in c.base_names):
+            continue
+        judge = ctx.prop in ("C13", "C14")
+        writers = [(g, s_) for g in c.methods.values() if g.self_name for s_ in walk_no_nested(g.node)
+                   if isinstance(s_, ast.Assign) and any(isinstance(t, ast.Subscript) and norm(t.value) == g.self_name for tt in s_.targets
+                                                           for t in ([tt] if not isinstance(tt, ast.Tuple) else tt.elts))
+                   and g.name in ("__missing__", "__getitem__", "get", "__contains__", "__iter__", "__len__")]
+        n += 1
+        if judge and writers:
+            g, s_ = writers[0]
+            ctx.bad(rule if ctx.prop != "C13" else "R-C13-2", g, s_, f"{c.name} derives from {c.base_names[0]} and its {g.name} stores into the container (`{norm(s_)[:60]}`): a mere "
+                    f"lookup of an absent key registers it - reading the continuum (`c[name]`, a failed remove, iter_annotator) changes its annotators", key=f"container:{c.name}")
+        else:
+            f0 = next(iter(c.methods.values()), None)
+            ctx.undecided(rule, f0, None, f"class {c.name} derives from the container type {c.base_names[0]} and overrides {sorted(c.methods)}: where it replaces the library's "
+                          f"container, lookups / insertions / iteration run this code, which no rule of this property read (not a verdict)", construct=f"class {c.name}",
+                          key=f"container:{c.name}")
     pkg_classes = set(M.classes)
     for m in M.modules.values():
         for node in ast.walk(m.tree):
